@@ -44,7 +44,7 @@ int __real_sched_yield(void);
 #define MAXSEND 32
 #define MAXB 32
 #define MAXP 4096
-#define STEP_BOUND 6000
+#define STEP_BOUND 3000
 
 enum { ST_RUN, ST_POLL, ST_DONE, ST_STUCK };
 
